@@ -265,7 +265,13 @@ def fault_ops(ctx):
                             d = {"seed": mi, "what": "fault", "kind": kind, "layout": layout, "block": blk.key, "canon": blk.canon,
                                  "block_kind": blk.kind, "label_kind": blk.label_kind, "token": i, "text": t2}
                             d.update(info)
-                            ops.append((d, M.render(m, {blk.key: t2})))
+                            # every fifth faulted block is written as a CDATA section (the same characters reach the grammar)
+                            # (not combined with the CRLF layout: inside a CDATA section libxml2's reader API keeps a raw CR that its tree API,
+                            # which the oracle uses, drops -- the two views of "the element's text" differ there for reasons outside libutap)
+                            as_cdata = (len(ops) % 5 == 4) and layout != "crlf" and "\r" not in t2
+                            if as_cdata:
+                                d["xml_text"] = "cdata"
+                            ops.append((d, M.render(m, {blk.key: t2}, cdata=(blk.key,) if as_cdata else ())))
     return ops
 
 
